@@ -455,7 +455,30 @@ def bcast_index(shape, out_idx):
     return tuple(res)
 
 
+def _masked_raise(idx):
+    raise AnalysisError("boolean-mask selection read by position (its length is data dependent); only `x[mask] = f(y[mask], ..)` with the same mask is modelled")
+
+
+def masked_of(a):
+    return a.label if (isinstance(a, Arr) and isinstance(a.label, tuple) and a.label and a.label[0] == 'masked') else None
+
+
+def masked_sel(mask: Arr, full: Arr):
+    """x[mask] for a boolean mask of x's shape: a 1-D array of data-dependent length.  Modelled only as an operand of elementwise
+    arithmetic with selections through the *same* mask (and scalars) and as the value of `y[mask] = ...` with that mask: the
+    pair (mask, full-shape array) is carried along, so that the store becomes where(mask, full, y)."""
+    n = Rat.atom(('nsel', id(mask)))
+    return Arr((n,), _masked_raise, full.kind, label=('masked', mask, full))
+
+
 def index_arr(ctx: Ctx, a: Arr, key) -> Arr:
+    if masked_of(a):
+        raise AnalysisError("indexing a boolean-mask selection")
+    kk = key if isinstance(key, tuple) else (key,)
+    if len(kk) == 1 and (isinstance(kk[0], Arr) or is_arraylike(kk[0])) and snap(kk[0]).kind == 'bool' and snap(kk[0]).ndim == a.ndim and a.ndim >= 1:
+        m = snap(kk[0])
+        if all((x - y).is_zero() for x, y in zip(m.shape, a.shape)):
+            return masked_sel(m, a)
     key = expand_key(key, a.ndim)
     adv = [k for k in key if isinstance(k, (Arr, list)) or is_arraylike(k)]
     if not adv:
@@ -636,6 +659,19 @@ def assign_index(ctx: Ctx, box: Box, key, value, lineno=None):
         mask = items[0]
         if len(mask.shape) != old.ndim:
             raise AnalysisError("mask of different rank")
+        mv = masked_of(val)
+        if mv:
+            if mv[1] is not mask:
+                raise AnalysisError("x[mask] = y[mask2]: the two masks are not the same object")
+            full = mv[2]
+            ofn, mfn = old.at, mask.at
+
+            def fnm(idx):
+                m = mfn(idx)
+                return ofn(idx) * (1 - m) + full.at(idx) * m
+            box.cur = Arr(old.shape, fnm, old.kind, origin=lineno, label=old.label)
+            box.log.append((('mask',), full, lineno))
+            return
         if val.ndim != 0:
             raise AnalysisError("masked assignment of a non-scalar")
         v0 = val.at(())
@@ -860,6 +896,20 @@ def _assign_advanced(ctx, box, items, val, lineno):
 # ----------------------------------------------------------------------------------------------
 def elementwise(ctx, f, args, kind='real', origin=None):
     arrs = [snap(a) for a in args]
+    ms = [masked_of(a) for a in arrs]
+    if any(ms):
+        mask = next(m for m in ms if m)[1]
+        full = []
+        for a, m in zip(arrs, ms):
+            if m:
+                if m[1] is not mask:
+                    raise AnalysisError("elementwise operation on selections through different boolean masks")
+                full.append(m[2])
+            elif a.ndim == 0:
+                full.append(a)
+            else:
+                raise AnalysisError("elementwise operation mixing a boolean-mask selection with a full array")
+        return masked_sel(mask, elementwise(ctx, f, full, kind, origin))
     segd = [a for a in arrs if a.segs is not None and not all(s.ndim <= 1 for s in a.segs)]
     if segd:
         # flat (ravelled) operands: operate block by block, keep the block structure
